@@ -114,7 +114,9 @@ func (r rv) must(what string) rv {
 	return r
 }
 
-func targetPanicMsg(s string) targetPanic { return targetPanic{iface{t: types.Typ[types.String], v: s}} }
+func targetPanicMsg(s string) targetPanic {
+	return targetPanic{iface{t: types.Typ[types.String], v: s}}
+}
 
 func packRV(t types.Type, v value) value {
 	return structure{rtypeCell(t), v, uintptr(rvValid)}
@@ -442,7 +444,9 @@ func registerReflect() {
 		w, _ := kindInfo(t.Underlying().(*types.Basic).Kind())
 		return w
 	})
-	tm("Size", func(fr *frame, t types.Type, a []value) value { return uintptr(types.SizesFor("gc", "amd64").Sizeof(t)) })
+	tm("Size", func(fr *frame, t types.Type, a []value) value {
+		return uintptr(types.SizesFor("gc", "amd64").Sizeof(t))
+	})
 	sig := func(t types.Type) *types.Signature {
 		s, ok := t.Underlying().(*types.Signature)
 		if !ok {
